@@ -455,16 +455,220 @@ fn c15_probe_ser() {
     core::mem::forget(v);
 }
 
+fn probe_append(w: &mut Writer) -> Result<(u64, u64), StorageError> {
+    let offset = w.root.free_offset;
+    spin(offset as u64 % 5 + 1); // 4
+    let off: u64 = offset
+        .try_into()
+        .assume("`free_offset` can be converted to `u64`")?;
+    spin(off % 5 + 1); // 4
+    let item = 7u64;
+    let bytes = postcard::to_allocvec(&item).map_err(|_| StorageError::IoError)?;
+    spin(bytes.len() as u64 % 5 + 2); // 3
+    let len = i64::try_from(bytes.len()).assume("serialized len fits in `i64`")?;
+    spin(len as u64 % 5 + 3); // 4
+    let end = offset
+        .checked_add(LEN_PREFIX_LEN)
+        .and_then(|o| o.checked_add(len))
+        .assume("append stays within `i64`")?;
+    spin(end as u64 % 5 + 1); // 12293 -> 4
+    w.ensure_capacity(end)?;
+    spin(vf::fs().n as u64 % 5 + 1); // 3
+    let new_offset = w.file.dump_bytes(offset, &bytes)?;
+    spin(new_offset as u64 % 5 + 1); // 4
+    spin(vf::fs().n as u64 % 5 + 1); // 5
+    Ok((item, off))
+}
+
 #[kani::proof]
 #[kani::unwind(50)]
 fn c15_probe_writer() {
     let mut w = fresh_writer();
-    spin(w.root.free_offset as u64 % 5 + 1); // 12288%5+1 = 4
-    let a = do_append(&mut w, 7);
-    spin(a % 5 + 1); // 4
-    spin(w.root.free_offset as u64 % 5 + 1); // 12293%5+1 = 4
-    spin(vf::fs().n as u64 % 5 + 1); // 4 -> 5
-    spin(vf::fs().trace[2].len as u64 % 5 + 1); // 4 -> 5
-    spin(vf::fs().trace[3].off as u64 % 5 + 1); // 12292 -> 3
+    match probe_append(&mut w) {
+        Ok((_, a)) => spin(a % 5 + 1),
+        Err(_) => panic!(),
+    }
     core::mem::forget(w);
+}
+
+#[kani::proof]
+#[kani::unwind(50)]
+fn c15_probe_p1() {
+    let fd = vf::fake_fd();
+    let _ = vf::fallocate(&fd, 0, 0, 20000);
+    spin(vf::fs().n as u64 % 5 + 1); // 2
+    let r = vf::pwrite(&fd, &[1, 2, 3, 4], 12288);
+    spin(vf::fs().n as u64 % 5 + 1); // 3
+    match r {
+        Ok(k) => spin(k as u64 + 1), // 5
+        Err(_) => spin(7),
+    }
+    let r = vf::pwrite(&fd, &[1, 2, 3, 4], 4096);
+    spin(vf::fs().n as u64 % 5 + 1); // 4
+    match r {
+        Ok(k) => spin(k as u64 + 1), // 5
+        Err(_) => spin(7),
+    }
+    core::mem::forget(fd);
+}
+
+#[kani::proof]
+#[kani::unwind(50)]
+fn c15_probe_p3() {
+    let fd = vf::fake_fd();
+    let _ = vf::fallocate(&fd, 0, 0, 20000);
+    let file = File { fd: Arc::new(fd) };
+    let r = file.write_all(12288, &[1, 2, 3, 4]);
+    spin(vf::fs().n as u64 % 5 + 1); // 3
+    match r {
+        Ok(()) => spin(5),
+        Err(_) => spin(7),
+    }
+    core::mem::forget(file);
+}
+
+fn probe_write_all(f: &File, mut offset: i64, mut buf: &[u8]) -> Result<(), StorageError> {
+    while !buf.is_empty() {
+        match libc::pwrite(&f.fd, buf, offset) {
+            Ok(0) => {
+                kani::cover!(true, "P4 zero");
+                return Err(StorageError::IoError);
+            }
+            Ok(n) => {
+                let b2 = buf.get(n..);
+                kani::cover!(b2.is_none(), "P4 get none");
+                buf = b2.assume("`n` is in bounds")?;
+                let t = i64::try_from(n);
+                kani::cover!(t.is_err(), "P4 tryfrom err");
+                let t = t.assume("write within bounds")?;
+                let o2 = offset.checked_add(t);
+                kani::cover!(o2.is_none(), "P4 add none");
+                offset = o2.assume("write within bounds")?;
+            }
+            Err(Errno::EINTR) => {
+                kani::cover!(true, "P4 eintr");
+            }
+            Err(e) => {
+                kani::cover!(true, "P4 err");
+                return Err(e.into());
+            }
+        }
+    }
+    Ok(())
+}
+
+#[kani::proof]
+#[kani::unwind(50)]
+fn c15_probe_p4() {
+    let fd = vf::fake_fd();
+    let _ = vf::fallocate(&fd, 0, 0, 20000);
+    let file = File { fd: Arc::new(fd) };
+    let r = probe_write_all(&file, 12288, &[1, 2, 3, 4]);
+    match r {
+        Ok(()) => spin(5),
+        Err(_) => spin(7),
+    }
+    core::mem::forget(file);
+}
+
+#[inline(never)]
+fn f1() -> Result<(), StorageError> {
+    Ok(())
+}
+#[inline(never)]
+fn f2(x: i64) -> Result<(), StorageError> {
+    if x < 0 {
+        return Err(StorageError::IoError);
+    }
+    Ok(())
+}
+#[inline(never)]
+fn f3(x: Option<i64>) -> Result<i64, StorageError> {
+    let v = x.assume("m")?;
+    Ok(v)
+}
+#[inline(never)]
+fn f4(fd: &OwnedFd) -> Result<(), StorageError> {
+    match libc::pwrite(fd, &[1, 2, 3, 4], 12288) {
+        Ok(0) => return Err(StorageError::IoError),
+        Ok(_) => {}
+        Err(Errno::EINTR) => {}
+        Err(e) => return Err(e.into()),
+    }
+    Ok(())
+}
+#[inline(never)]
+fn f5(fd: &OwnedFd) -> Result<(), StorageError> {
+    match libc::pwrite(fd, &[1, 2, 3, 4], 12288) {
+        Ok(0) => return Err(StorageError::IoError),
+        Ok(_) => {}
+        Err(_) => return Err(StorageError::IoError),
+    }
+    Ok(())
+}
+fn rspin<T>(r: Result<T, StorageError>) {
+    match r {
+        Ok(_) => spin(5),
+        Err(_) => spin(7),
+    }
+}
+
+#[kani::proof]
+#[kani::unwind(50)]
+fn c15_probe_p5() {
+    let fd = vf::fake_fd();
+    let _ = vf::fallocate(&fd, 0, 0, 20000);
+    rspin(f1());
+    spin(11);
+    rspin(f2(5));
+    spin(11);
+    rspin(f3(Some(5)));
+    spin(11);
+    rspin(f4(&fd));
+    spin(11);
+    rspin(f5(&fd));
+    core::mem::forget(fd);
+}
+
+#[inline(never)]
+fn g1(buf: &[u8], n: usize) -> Result<usize, StorageError> {
+    let b = buf.get(n..).assume("`n` is in bounds")?;
+    Ok(b.len())
+}
+#[inline(never)]
+fn g2(n: usize) -> Result<i64, StorageError> {
+    let t = i64::try_from(n).assume("write within bounds")?;
+    Ok(t)
+}
+#[inline(never)]
+fn g3(o: i64, t: i64) -> Result<i64, StorageError> {
+    let t = o.checked_add(t).assume("write within bounds")?;
+    Ok(t)
+}
+#[inline(never)]
+fn g4(buf: &[u8], n: usize) -> Option<usize> {
+    let b = buf.get(n..)?;
+    Some(b.len())
+}
+
+#[kani::proof]
+#[kani::unwind(50)]
+fn c15_probe_p6() {
+    rspin(g1(&[1, 2, 3, 4], 2));
+    spin(11);
+    rspin(g1(&[1, 2, 3, 4], 4));
+    spin(12);
+    rspin(g2(4));
+    spin(13);
+    rspin(g3(12288, 4));
+    spin(14);
+    match g4(&[1, 2, 3, 4], 4) {
+        Some(_) => spin(5),
+        None => spin(7),
+    }
+    spin(15);
+    match g4(&[1, 2, 3, 4], 3) {
+        Some(_) => spin(5),
+        None => spin(7),
+    }
 }
